@@ -126,6 +126,7 @@ var errExceptions = map[string]string{
 	fSrv + "isExtentSupported$1 | os.Remove":              "removal of the scratch probe file tmpFile.tmp (not part of the replica's state)",
 	fSrv + "Reload | " + fRep + "Close":                   "old in-memory instance, superseded by the reloaded one",
 	"(*replica.Server).Create | (*replica.Server).initUUID": "deferred; see initUUID",
+	fRep + "createDisk | " + fRep + "rmDisk":                "cleanup of the not yet referenced new head on a path that already returns createNewHead's error",
 }
 
 func ruleC08Err(c *Ctx) {
@@ -162,6 +163,13 @@ func ruleC08Err(c *Ctx) {
 					continue
 				}
 				verdict, detail := errDiscipline(fn, call, ev)
+				if verdict == "ok" && errResultIndex(fn) >= 0 && fn.Parent() == nil {
+					// tested is not enough: on the failure edge the function must not go on to report success
+					if w := failureReachesSuccess(fn, call, ev); w != nil {
+						verdict, detail = "bad", "the error of "+callee+" is tested but only logged: on the failure edge the function can still return success (the failure is swallowed)"
+						_ = w
+					}
+				}
 				switch {
 				case verdict == "ok":
 					c.OK(rule, key, where, detail, true)
@@ -176,6 +184,50 @@ func ruleC08Err(c *Ctx) {
 	if n < 60 {
 		c.Undecided(rule, "vacuity-floor", "", fmt.Sprintf("only %d must-check call sites found (expected >= 60)", n))
 	}
+}
+
+// failureReachesSuccess: from the err != nil edge of ev, a return that is not provably an error
+// return is reachable (and it does not return ev itself).
+func failureReachesSuccess(fn *ssa.Function, call *ssa.Call, ev ssa.Value) []Witness {
+	_, nonNil := nilTestEdges(fn, ev)
+	// only the branch that tests ev directly (not through a phi with other errors)
+	has := false
+	for _, b := range fn.Blocks {
+		for k := range b.Succs {
+			if nonNil(b, k) {
+				has = true
+			}
+		}
+	}
+	if !has {
+		return nil
+	}
+	ei := errResultIndex(fn)
+	// an error classified as harmless (os.IsNotExist / os.IsExist on that very error) is handled
+	RR := NewRenderer(fn)
+	evs := RR.V(ev)
+	handled := atomEdges(fn, RR, "os.IsNotExist("+evs+")", "os.IsExist("+evs+")")
+	ws := afterEdge(fn, nonNil, nil, handled, func(in ssa.Instruction) bool {
+		r, ok := in.(*ssa.Return)
+		if !ok || ei >= len(r.Results) {
+			return false
+		}
+		v := r.Results[ei]
+		if provablyNonNilError(v) || sameValue(v, ev) {
+			return false
+		}
+		if isNilConst(strip(v)) {
+			return true
+		}
+		// another error value: success unless this return is dominated by its own non-nil test
+		_, nn := nilTestEdges(fn, strip(v))
+		q := Query{Fn: fn, IsSite: func(x ssa.Instruction) bool { return x == in }, GenEdge: nn}
+		return len(q.Run()) > 0
+	})
+	if len(ws) == 0 {
+		return nil
+	}
+	return ws
 }
 
 // errDiscipline classifies how the error value ev of `call` is consumed.
@@ -502,6 +554,35 @@ func ruleC08Dur(c *Ctx) {
 	if n < 40 {
 		c.Undecided(rule, "vacuity-floor", "", fmt.Sprintf("only %d exported operations analysed", n))
 	}
+}
+
+// ruleC08CloseWho: Replica.Close persists the instance's r.info (Dirty=false) into volume.meta; it may
+// only be applied to the instance that is current (or to a superseded instance whose info equals
+// the current one's).
+func ruleC08CloseWho(c *Ctx) {
+	const rule = "C08-CLOSEWHO"
+	c.Doc(rule, "(*Replica).Close rewrites volume.meta from the instance's in-memory info; it is called only from the allow-listed sites (Server.Close, Server.Create on the instance it just built, Server.Reload on the superseded instance whose head is unchanged, CheckPreDeleteConditions, read-only/backup helpers): closing a stale instance after a head-changing operation would overwrite the committed volume.meta")
+	allowed := map[string]string{
+		fSrv + "Close":                    "the current instance",
+		fSrv + "Create":                   "the instance it just constructed",
+		fSrv + "Reload":                   "superseded instance; Reload does not change the head, so its info names the same chain",
+		fSrv + "CheckPreDeleteConditions": "before the directory content is deleted",
+	}
+	n := 0
+	for _, fn := range prodFns(c.P) {
+		for _, in := range AnyCallsTo(fn, fRep+"Close") {
+			n++
+			key := FnName(fn) + " | (*Replica).Close"
+			if why, ok := allowed[FnName(fn)]; ok {
+				c.OK(rule, key, c.P.InstrPos(in), "allow-listed: "+why, false)
+			} else if strings.Contains(FnName(fn), "tests/") || strings.HasPrefix(FnName(fn), "app.") || strings.HasPrefix(FnName(fn), "sync.") || strings.HasPrefix(FnName(fn), "(*sync.") {
+				c.OK(rule, key, c.P.InstrPos(in), "process-level shutdown / temporary instance", false)
+			} else {
+				c.Bad(rule, key, c.P.InstrPos(in), "new call of (*Replica).Close: closing an instance whose in-memory info is stale (e.g. the pre-revert instance) rewrites volume.meta with the old head", nil)
+			}
+		}
+	}
+	c.Floor(rule, 3)
 }
 
 func isDeferOrGo(in ssa.Instruction) bool {
